@@ -112,8 +112,14 @@ def rule_one_append(ctx, rep):
             if not (is_line or is_sub):
                 vals_ok = False
                 bad_val = c
-        ok = one_on_all and not double and vals_ok
+        removals = [
+            c for c in ast.walk(lp)
+            if isinstance(c, ast.Call) and last_attr(c.func) in ("pop", "remove", "clear") and isinstance(c.func, ast.Attribute) and "lines" in unparse(c.func.value)
+        ] + [d for d in ast.walk(lp) if isinstance(d, ast.Delete)]
+        ok = one_on_all and not double and vals_ok and not removals
         why = []
+        if removals:
+            why.append("the output list is shrunk inside the loop (a line is dropped)")
         if not one_on_all:
             why.append("some path through the loop body appends nothing (a line is dropped)")
         if double:
